@@ -106,6 +106,9 @@ def tla_val(x):
     return str(x)
 
 
+SPEC_OVERLAY = {}     # module file name -> replacement text (selftest: seeded specification mutations)
+
+
 def run_dir(name):
     d = os.path.join(WORK, "runs", name)
     shutil.rmtree(d, ignore_errors=True)
@@ -113,6 +116,9 @@ def run_dir(name):
     for f in os.listdir(SPEC):
         if f.endswith(".tla"):
             shutil.copy(os.path.join(SPEC, f), d)
+    for f, text in SPEC_OVERLAY.items():
+        with open(os.path.join(d, f), "w") as fh:
+            fh.write(text)
     return d
 
 
@@ -263,6 +269,8 @@ def validate_trace(tag, base, trace_file, consts=None, timeout=600, heap="4g", v
     Returns dict(accepted, reject (decoded TRACE-REJECT payload or None), states, wall_s, text)."""
     d = run_dir(tag)
     consts = dict({"MaxPrice": MAXPRICE} if consts is None else consts)
+    if base == "BookTrace":
+        consts.setdefault("FixTies", True)     # BookImpl.tla models the repaired tie handling of the current code
     write_model(d, "MC", base, consts,
                 ["SPECIFICATION TSpec", "INVARIANT Report", "CONSTRAINT Track", "POSTCONDITION Accepted"] + (["VIEW " + view] if view else []))
     env = dict(os.environ, TRACE=trace_file,
